@@ -184,6 +184,42 @@ def extract(repo):
     d["suffix_lead"] = fmts[0].func.value.value[:-2]
     if "{" in d["suffix_lead"] or "}" in d["suffix_lead"]:
         raise Unrecognised("uniqueness suffix format")
+    # the uniqueness loop must probe exactly the path that is returned: `path` comes from os.path.split(filename)
+    # and nothing else, the loop tests os.path.isfile(os.path.join(path, fname)) and the function returns
+    # os.path.join(path, fname).  (The model's `isfile` is asked about the RETURNED string.)
+    own = [n for n in ast.walk(cfn)]
+    nested = [n for n in own if isinstance(n, ast.FunctionDef) and n is not cfn]
+    inner = {id(x) for f in nested for x in ast.walk(f)}
+    whiles = [n for n in own if isinstance(n, ast.While)]
+    if len(whiles) != 1:
+        raise Unrecognised(f"clean_file_name: {len(whiles)} while loops, expected the uniqueness loop only")
+    probe = ast.unparse(whiles[0].test)
+    rets = [n for n in own if isinstance(n, ast.Return) and id(n) not in inner]
+    if len(rets) != 1 or rets[0].value is None:
+        raise Unrecognised("clean_file_name: expected exactly one return")
+    ret = ast.unparse(rets[0].value)
+    if ret != "os.path.join(path, fname)":
+        raise Unrecognised(f"clean_file_name returns {ret!r}, expected os.path.join(path, fname)")
+    if probe != f"os.path.isfile({ret})":
+        raise Unrecognised(f"the uniqueness loop probes {probe!r}, not os.path.isfile of the returned path {ret!r}")
+    binds = []
+    for n in own:
+        tg = []
+        if isinstance(n, ast.Assign):
+            tg = n.targets
+        elif isinstance(n, (ast.AugAssign, ast.AnnAssign)):
+            tg = [n.target]
+        elif isinstance(n, (ast.For, ast.comprehension)):
+            tg = [n.target]
+        elif isinstance(n, ast.NamedExpr):
+            tg = [n.target]
+        for t in tg:
+            for x in ast.walk(t):
+                if isinstance(x, ast.Name) and x.id == "path":
+                    binds.append(ast.unparse(n))
+    if binds != ["path, fname = os.path.split(filename)"]:
+        raise Unrecognised(f"clean_file_name: `path` is bound by {binds}, expected only the os.path.split(filename) unpacking")
+    d["unique_probe"], d["return_expr"], d["path_binding"] = probe, ret, binds[0]
     # cli/main.py
     cli = ast.parse(open(os.path.join(repo, CLI)).read())
     vcn = _fn(cli, "valid_class_name")
@@ -228,6 +264,10 @@ def generate(repo):
     a("def exportPatterns : List (String × String) := [" +
       ", ".join(f"({lstr(p)}, {lstr(e[0])})" for _, p, e in d["export_calls"]) + "]")
     a(f"def suffixFormat : String := {lstr(d['suffix_format'])}")
+    a("/-- what the uniqueness loop tests, what the function returns, where `path` comes from -/")
+    a(f"def uniqueProbe : String := {lstr(d['unique_probe'])}")
+    a(f"def returnExpr : String := {lstr(d['return_expr'])}")
+    a(f"def pathBinding : String := {lstr(d['path_binding'])}")
     a("")
     a(f"def pathMaxLength : Nat := {d['path_max_length']}")
     a(f"def extDivisor : Nat := {d['ext_divisor']}")
